@@ -194,6 +194,9 @@ def run(ctx):
     chk.floor("R12.2", "deep text writers", dw, 3)
 
     # ---- R12.3 serde
+    if "serde" not in fb.features:
+        chk.note("R12.3 skipped: this build configuration does not enable the serde feature")
+        return
     ser = fb.find_bodies(lambda b: b["kind"] == "Fn" and b["path"].endswith("expression::serde::serialize"))
     if len(ser) != 1:
         chk.violation("R12.3", "anchor:serialize", "serde::serialize helper not found (feature serde)")
